@@ -268,6 +268,21 @@ func creation(c *mon.Ctx, r *gen.Rand) {
 	if p == nil || p[0] != 0x47 || p.PID() != pid || !p.HasPayload() || !p.PayloadUnitStartIndicator() || p.HasAdaptationField() {
 		c.Fail("create:Create", fmt.Sprintf("Create(pid=%d, WithHasPayloadFlag, WithPUSI) does not carry the requested sync/PID/flags", pid), w(p, ""))
 	}
+	// option lists that share a backing array (built incrementally / sub-sliced): Create must not write into them
+	pay4 := r.Bytes(4)
+	opts := make([]func(*packet.Packet), 0, 8)
+	opts = append(opts, packet.WithHasPayloadFlag)
+	short := opts[:1]
+	opts = append(opts, packet.WithPUSI, func(q *packet.Packet) { packet.SetPayload(q, pay4) })
+	p1 := packet.Create(pid, short...)
+	p2 := packet.Create(pid, opts...)
+	c.Eval(2)
+	if p1 == nil || p1[0] != 0x47 || p1.PID() != pid || !p1.HasPayload() || p1.PayloadUnitStartIndicator() {
+		c.Fail("create:Create-sublist", "Create with a one-option list does not carry exactly the requested flags", w(p1, ""))
+	}
+	if got2, err := packet.Payload(p2); p2 == nil || p2[0] != 0x47 || p2.PID() != pid || !p2.HasPayload() || !p2.PayloadUnitStartIndicator() || err != nil || !bytes.Equal(got2[:4], pay4) {
+		c.Fail("create:Create-option-list-overwritten", "a second Create with a longer option list that shares its backing array with the first call's list lost a requested option", w(p2, ""))
+	}
 	pts := r.U33()
 	p = packet.Create(pid)
 	packet.WithPES(p, pts)
